@@ -113,41 +113,45 @@ def runWithConfig (b : Backend) (valid : String → Bool) (compile : String → 
 
 def kindItems : KeyKind → List Item
   | .str => []
-  | .regexp => [(3, "assign", "c.CheckBanner, err = regexp.Compile(val)")]
-  | .int => [(3, "call", "getInt")]
+  | .regexp => [(3, "assign", "v5.CheckBanner, err = regexp.Compile(c1p2[0])")]
+  | .int => [(3, "call", "f2")]
 
+/-- `insert` = f1 (parameters c1p1 = key, c1p2 = values), `getInt` = f2, `getIPList` = f3 -/
 def insertDispatchItems : List Item :=
-  [(1, "switch", "key")] ++
-  multiKeys.flatMap (fun k => [(2, "case", q k), (3, "call", "getIPList"), (3, "ret", "err")]) ++
-  [(1, "if", "len(values) != 1"), (2, "ret", "Errorf(…)"), (1, "switch", "key")] ++
+  [(1, "switch", "c1p1")] ++
+  multiKeys.flatMap (fun k => [(2, "case", q k), (3, "call", "f3"), (3, "ret", "err")]) ++
+  [(1, "guard", "len(c1p2) != 1"), (2, "ret", "Errorf(…)"), (1, "switch", "c1p1")] ++
   singleKeys.flatMap (fun k => (2, "case", q k.1) :: kindItems k.2) ++
-  [(2, "case", "default"), (3, "call", "warn"), (1, "ret", "err")]
+  [(2, "case", "default"), (1, "ret", "err")]
+
+/-- `words := strings.Fields(line)` is a single-assignment local: the normal form shows its
+definition wherever it is used. -/
+def words : String := "strings.Fields(v7)"
 
 def loadConfigSkel : List Item :=
-  [ (0, "for", "range confPaths"),
-    (1, "if", "!errors.Is(err, fs.ErrNotExist)"), (2, "ret", "nil, Errorf(…)"),
-    (0, "if", "data == nil"), (1, "ret", "nil, Errorf(…)"),
-    (0, "closure", "insert"),
-    (1, "closure", "getInt"),
-    (2, "if", "err != nil"), (3, "ret", "i, Errorf(…)"),
-    (2, "if", "i < 0"), (3, "ret", "0, Errorf(…)"),
-    (2, "ret", "i, nil"),
-    (1, "closure", "getIPList"),
-    (2, "for", "range values"), (3, "call", "ParseAddr"), (3, "if", "err != nil"), (4, "ret", "nil, Errorf(…)"),
-    (2, "ret", "result, nil") ] ++
+  [ (0, "for", "range v1"),
+    (1, "guard", "err == nil"), (2, "break", ""),
+    (1, "guard", "!errors.Is(err, fs.ErrNotExist)"), (2, "ret", "nil, Errorf(…)"),
+    (0, "guard", "v2 == nil"), (1, "ret", "nil, Errorf(…)"),
+    (0, "closure", "f1"),
+    (1, "closure", "f2"),
+    (2, "guard", "err != nil"), (3, "ret", "v3, Errorf(…)"),
+    (2, "guard", "v3 < 0"), (3, "ret", "0, Errorf(…)"),
+    (2, "ret", "v3, nil"),
+    (1, "closure", "f3"),
+    (2, "for", "range c1p2"), (3, "guard", "err != nil"), (4, "ret", "nil, Errorf(…)"),
+    (2, "ret", "v4, nil") ] ++
   insertDispatchItems ++
-  [ (0, "assign", "lines := strings.Split(string(data), \"\\n\")"),
-    (0, "for", "range lines"),
-    (1, "assign", "words := strings.Fields(line)"),
-    (1, "if", "len(words) < 3 || words[1] != \"=\""), (2, "call", "warn"),
-    (1, "assign", "key := words[0]"),
-    (1, "if", "seen[key]"), (2, "call", "warn"),
-    (1, "call", "insert"),
-    (1, "if", "err != nil"), (2, "ret", "nil, err"),
+  [ (0, "for", "range v6"),
+    (1, "if", "!(len(" ++ words ++ ") == 0 || " ++ words ++ "[0][0] == '#')"),
+    (2, "guard", "len(" ++ words ++ ") < 3 || " ++ words ++ "[1] != \"=\""), (3, "continue", ""),
+    (2, "guard", "v8[" ++ words ++ "[0]]"), (3, "continue", ""),
+    (2, "call", "f1"),
+    (2, "guard", "err != nil"), (3, "ret", "nil, err"),
     (0, "for", "range defaultVals"),
-    (1, "if", "!seen[key]"),
-    (2, "call", "insert"), (2, "if", "err != nil"), (3, "ret", "nil, err"),
-    (0, "if", "c.BaseDir == \"\""), (1, "ret", "nil, Errorf(…)"),
-    (0, "ret", "&c, nil") ]
+    (1, "if", "!v8[v9]"),
+    (2, "call", "f1"), (2, "guard", "err != nil"), (3, "ret", "nil, err"),
+    (0, "guard", "v5.BaseDir == \"\""), (1, "ret", "nil, Errorf(…)"),
+    (0, "ret", "&v5, nil") ]
 
 end NA.Gate.Config
